@@ -103,3 +103,7 @@ impl<T: Canon> SerBytes for T { open spec fn ser_bytes(&self) -> Seq<u8> { self.
 pub fn ser_to_vec<T: SerBytes>(x: &T) -> (r: Result<Vec<u8>, SerializationError>)
     ensures r is Ok ==> r->Ok_0@ == x.ser_bytes()
 { unimplemented!() }
+// CanonicalSerialize::serialize_uncompressed into a Vec<u8>: appends the (uncompressed) canonical encoding; writing to a Vec cannot fail
+pub trait SerU { spec fn ser_u(&self) -> Seq<u8>; fn serialize_uncompressed(&self, w: &mut Vec<u8>) -> (r: Result<(), SerializationError>) ensures r is Ok, final(w)@ == old(w)@ + self.ser_u(); }
+impl SerU for G1Affine { uninterp spec fn ser_u(&self) -> Seq<u8>; #[verifier::external_body] fn serialize_uncompressed(&self, w: &mut Vec<u8>) -> (r: Result<(), SerializationError>) { unimplemented!() } }
+impl SerU for Fr { uninterp spec fn ser_u(&self) -> Seq<u8>; #[verifier::external_body] fn serialize_uncompressed(&self, w: &mut Vec<u8>) -> (r: Result<(), SerializationError>) { unimplemented!() } }
